@@ -181,15 +181,22 @@ def r4(run):
 
 
 def r5(run):
-    b = C.body_or_fail(run, C.APPEND)
+    for b in C.publishers(run.facts):
+        run.touch(b)
+        r5_for(run, b, b.def_)
+
+
+def r5_for(run, b, AP):
     b.defs()
     w = None
     for (bi, si, lhs, rv, sp) in b.field_writes:
         pp = place_path(b.place_expr(lhs))
-        if pp and pp[-1] == "id" and pp[0] == "frame" and "ref" not in rv:
+        last = lhs["p"][-1] if lhs["p"] else None
+        is_frame_id = isinstance(last, dict) and last.get("n") == "id" and last.get("adt") == C.FRAME
+        if ((pp and pp[-1] == "id" and pp[0] == "frame") or is_frame_id) and "ref" not in rv and bi in b.live_blocks():
             w = (bi, sp)
     if w is None:
-        run.missing("%s|id-assignment" % C.APPEND, "append does not assign frame.id", b.sp)
+        run.missing("%s|id-assignment" % AP, "append does not assign frame.id", b.sp)
         return
     uses = [c for c in b.calls() if c.bb in b.live_blocks() and c.bb != w[0] and c.fn in (C.INSERT_FRAME, C.BROADCAST_SEND, C.HASHSET_INSERT, "xs::store::idx_topic_key_from_frame")]
     run.floor("uses of the frame in append after id assignment", len(uses), 3, b.sp)
@@ -223,7 +230,7 @@ def r5(run):
         return True
     uses = [c for c in uses if not value_unused(c)]
     for c in uses:
-        run.ob("%s|id-before|%s" % (C.APPEND, c.fn.split("::")[-1]), q.dominated(b, c.bb, via_blocks=[w[0]]), c.sp, "frame.id is assigned before %s" % c.fn.split("::")[-1],
+        run.ob("%s|id-before|%s" % (AP, c.fn.split("::")[-1]), q.dominated(b, c.bb, via_blocks=[w[0]]), c.sp, "frame.id is assigned before %s" % c.fn.split("::")[-1],
                reason="use-before-id")
     # get and insert_frame key the primary partition with the same 16-byte encoding of the id
     g = C.body_or_fail(run, C.GET)
